@@ -224,6 +224,7 @@ ADDENDA = {
     "C14": " Also decided (R14-accept, rules of C19): the decoder's consistency checks accept what the encoder prints for legal positions - each castling right tested against its own king and rook home squares, one king per side.",
     "C07": " Also decided (R07-fork, rule of C08): Board.Fork initialises every field of the board and of its fresh head node from the original, the node's hash included, so a fork reports the same hashes.",
     "C11": " Also decided (R11-nested, defect F37): a leaf evaluator that starts a search of its own does not hand it the caller's table.",
+    "C02": " Also decided (R02-views, rule of C06): the rotated occupancies agree with the plain one - each index table RotatedBitboard.Xor writes through is a permutation and each window read back maps onto its geometric line.",
     "C01": " Also decided here (re-decided from C02/C06 because the generator and the legality filter rest on them): the castling-rights table CastlingRightsLost over all (From,To) classes, and the attack queries behind IsChecked/IsAttacked/IsAttackedBy/IsCheckMate together with the boards they read (rotated-view windows, slider rays, leaper and pawn tables, Attackboard dispatch: the C06 rules, for every square). R01-ep (rules of C02): the en-passant target of the successor is set by a jump and cleared by every other move, so the e.p. captures generated are the legal ones.",
     "C03": " Hand-back: PopMove is the exact inverse of PushMove, the game result included (R08-inverse re-decided; defect F23). The window clause reads, as corrected after defect F19: the child's bounds are negations of the parent's bounds translated by the inverse of the mate-distance increment, decided as the identity Negate(IncrementMateDistance(bound handed down)) = parent's bound on every abstract score region (R03-window). Also decided: the move loop is left early only on alpha >= beta or cancellation; no node returns on a cut-off before a move was tried or the mate/stalemate verdict produced; the score algebra of C09 including DecrementMateDistance (re-decided as R03-scores); MoveList.Next is empty-exact. Also decided (R03-handback, defect F35): the no-legal-move verdict, which AdjudicateNoLegalMoves writes into the board, is taken back by the search function itself on every path (at the root no take-back would do it).",
     "C04": " Also decided: every call of a halting Engine method in the command loop is preceded by the deactivation helper (a superseded search never gets a bestmove of its own; R16-supersede re-decided as R04-single); a go always halts what the engine still has registered before it launches. Also decided (rules of C16, re-decided under R04-single): a completion is tied to its search, cannot win the cleared flag (a late stop after a self-ended search would answer twice), is claimed and emitted by the command loop, under fresh ids. Also decided (R04-position, rules of C10): the game the engine answers for is the one the last position command describes - line committed only after all moves were applied and forgotten when one fails, reset on a non-continuation, token-boundary continuation test, every FEN field decoded, no move refused on account of the game result.",
@@ -233,13 +234,13 @@ ADDENDA = {
     "C10": " Also decided: the continuation test of the position arm compares the new line with the remembered one at a token boundary (R10-prefix, defect F20); a continuation must extend the remembered line by a move list (second obligation of R10-prefix, defect F31); Engine.Move's text match is exact on origin, destination and promotion (R19-move re-decided as R10-move). Also decided (R10-decode, rule of C14): fen.Decode hands every field of the text on to the position and values it returns, each from its own field. Also decided (R10-accept): no branch of Engine.Move is decided by Board.Result(), so a move list is applied also past a claimable draw.",
     "C08": " The result clause reads, as corrected after defect F23: a take-back restores the game result the board reported before the move, claimable draws included.",
     "C12": " Also decided: the mate/stalemate verdict (which writes the board's result) is produced only on paths where no move was pushed, and PopMove is the exact inverse of PushMove on everything the board reports, the game result included (R08-inverse re-decided; defect F23), so a halted search hands the board back as received.",
-    "C19": " Also decided (R19-pushsrc): every move pushed on a board outside the board package derives from the position's own generator; fen.NewBoard fails it and is listed as known finding F26. Also decided (R19-meta, defect F22): some decision in the decoding family depends on both the castling rights and the placement, on both the en-passant square and the placement, and on both the en-passant square and the side to move, and rejects or repairs. Also decided (R19-homes, defects F22/F34): each castling right is checked against its own king and rook home squares, and the validating function accepts only placements with exactly one king per side. R19-index also covers the command loops of both drivers (defect F36): a token picked by a constant index or a constant-bounded sub-list of the split input line is dominated by a length test. R19-counters (defect F39): the half-move clock and full-move number fen.Decode accepts are bounded at least 2^31 below the end of int, so the FEN a game reports stays decodable.",
+    "C19": " Also decided (R19-pushsrc): every move pushed on a board outside the board package derives from the position's own generator; fen.NewBoard fails it and is listed as known finding F26. Also decided (R19-meta, defect F22): some decision in the decoding family depends on both the castling rights and the placement, on both the en-passant square and the placement, and on both the en-passant square and the side to move, and rejects or repairs. Also decided (R19-homes, defects F22/F34): each castling right is checked against its own king and rook home squares, and the validating function accepts only placements with exactly one king per side. R19-index also covers the command loops of both drivers (defect F36): a token picked by a constant index or a constant-bounded sub-list of the split input line is dominated by a length test. R19-counters (defect F39): the half-move clock and full-move number fen.Decode accepts are bounded at least 2^31 below the end of int, so the FEN a game reports stays decodable. R19-tables (rule of C14): what the encoder prints the decoder reads back - the letter tables are standard and mutually inverse.",
     "C13": " Also decided: the child window is the exact pre-image of the parent's window under Negate(IncrementMateDistance(.)) on every abstract score region (R13-frame; defect F19), and the negamax discipline of C03 including 'the move loop is left early only on alpha >= beta'.",
     "C15": " The time-control clause also requires the divisor of the time split to have a finite upper bound on every path (no int64 wrap-around to zero or below for a huge movestogo; defect F21). Anchors are role-based (the function started by the launcher, the handle's fields by type and use); the stop tests are recognised in the controller or in a bool helper it consults. Also decided: at every call of the time-control enforcement the colour handed over is Board.Turn() itself (the limits come from the mover's clock).",
     "C16": " A timer whose callback halts the engine is kept and stopped (R16-timer, defect F27); a hash size from the command line reaches the engine only range-checked (R16-options, defect F28); the completion's compare-and-swap expects a per-search id handed in by the caller and info lines are printed only for the search they belong to (R16-stale restated; the former known finding F12 is repaired), and searches are completed by the command loop itself, never by a goroutine it started (defect F32); the output channel is closed only after the forwarders were joined (R16-close-owner decides the join; the former known finding F11 is repaired); no command other than quit, end of input or close leaves the command loop (the former known finding F13 is repaired) - C16 has no listed findings left. The rules read the active flag through a representation-agnostic model (clear / arm / win / load). The noise generator's mutex must be shared by every copy of the generator (not a by-value field of a copied receiver). Also decided (R16-supersede): a command that halts the engine's search on the way to something else clears the active flag first; goroutines started by the command loop share only variables that are no longer assigned. R16-locks decides ownership generally: a plain (non-channel, non-sync) driver field that the command loop writes is touched by no asynchronously started function or its helpers. Also decided (R16-flush, defect F38): in every function that creates a driver the output channel is consumed by a call the function waits for, so nothing the driver emitted is lost when the process exits.",
     "C18": " No evaluator state is excepted any more (defect F29): a store through a parameter is accepted only if every caller in search code passes an object it has just created. Also decided: Engine.Reset replaces board, table and noise generator on every path (a reset engine does not continue a consumed random stream); the stateful SARGON evaluator is re-initialised on every path of its Reset without reading old state; map iteration in search code is order-insensitive by shape. Also decided (R18-handback, rules of C03/C08): a search hands its board back as received - balanced push/pop, PopMove the exact inverse of PushMove (castled flags and result included), the no-legal-move verdict taken back - so the iterations of one analysis, which share a fork, start from the same state.",
     "C17": " Also decided (R17-range, defect F30): ply and depth are narrowed into the entry only under range tests, and the replacement value is computed in a type wider than its operand fields.",
-    "C20": " Also decided: every narrowing of the plausible-move list after the initial filter is guarded by the castle-ranked flag; the branch-limit cut is made before Selection (helper or inline); every key of a book map keeps the leading FEN fields the legality of the filed reply depends on (R20-key: placement and side for every book, castling rights and e.p. target too for books built from played lines); a counted loop over squares in an evaluator visits a mirror-symmetric set of squares (R20-squares, a necessary condition of colour-blindness, which as a whole stays not decided).",
+    "C20": " Also decided: every narrowing of the plausible-move list after the initial filter is guarded by the castle-ranked flag; the branch-limit cut is made before Selection (helper or inline); every key of a book map keeps the leading FEN fields the legality of the filed reply depends on (R20-key: placement and side for every book, castling rights and e.p. target too for books built from played lines); a counted loop over squares in an evaluator visits a mirror-symmetric set of squares (R20-squares, a necessary condition of colour-blindness, which as a whole stays not decided). R20-mirror: a historical evaluator that names a castling-rights constant of one colour names its mirror image too (necessary for colour-blindness).",
 }
 for _pid, _t in ADDENDA.items():
     if _pid in CLAIMED:
